@@ -27,6 +27,7 @@ UNEVEN = (0.0, 1.0, 3.0, 7.0, 8.0, 20.0)
 
 
 def cost_fn(name, v):
+    name = name.split("@")[0]
     if name == "id":
         return (v[0], v[1], True)
     if name == "abs":      # distinct designs with colliding costs
@@ -38,8 +39,13 @@ def build(vectors, fn):
     from artap.individual import Individual
     from .c02 import selector
     pop = []
-    for v in vectors:
-        ind = Individual(list(v))
+    for j, v in enumerate(vectors):
+        if "@" in fn:
+            # a pool that mixes the carrier classes of the framework (merged runs, individuals loaded from a store)
+            from .c20 import make_as, CLASSES
+            ind = make_as(CLASSES[(j + int(fn.split("@")[1])) % len(CLASSES)], v)
+        else:
+            ind = Individual(list(v))
         ind.costs_signed = list(cost_fn(fn, v))
         pop.append(ind)
     selector().fast_nondominated_sorting(pop)
@@ -352,6 +358,11 @@ def run(tier, seed):
             shards.append(("trunc", "id", 4, (v, w)))
             if tier == "thorough":
                 shards.append(("trunc", "abs", 4, (v, w)))
+    for rot in range(5):              # pools mixing the carrier classes, every rotation of the class assignment
+        shards.append(("trunc", "id@%d" % rot, 2, ()))
+        for v in vecs[::3]:
+            shards.append(("trunc", "id@%d" % rot, 3, (v,)))
+        shards.append(("trunc", "abs@%d" % rot, 2, ()))
     small = list(itertools.product((-2.0, -1.0), repeat=2)) + [(0.0, 1.0)]
     for v in small:
         shards.append(("trunc", "id", 5, (v,)))
